@@ -2,7 +2,7 @@
 
 use crate::runner::*;
 use crate::sbx::{self, Boxed, Place};
-use mb2_model::expect_mbi::{decode_elf_entry, elf_in_use, elf_shape, elf_type_name, ElfShape};
+use mb2_model::expect_mbi::{decode_elf_entry, elf_in_use, elf_shape, ElfShape};
 use mb2_model::transcript::{Rec, Transcript, Val};
 use mb2_model::*;
 use proptest::prelude::*;
@@ -141,7 +141,7 @@ fn exercise(ptr: *const u8, len: usize, with_names: bool, max_steps: usize) -> T
                         let q = format!("s{j}");
                         rec.t.push(q.clone(), Val::Ok);
                         rec.call(format!("{q}.raw_type"), || Val::U(s.section_type_raw() as u64));
-                        rec.call(format!("{q}.type"), || Val::Txt(format!("{:?}", s.section_type())));
+                        rec.call(format!("{q}.type"), || Val::U(s.section_type() as u32 as u64));
                         rec.call(format!("{q}.flags"), || Val::U(s.flags().bits()));
                         rec.call(format!("{q}.addr"), || Val::U(s.start_address()));
                         rec.call(format!("{q}.size"), || Val::U(s.size()));
@@ -234,7 +234,7 @@ pub fn eval(c: &Case, obs: &mut Obs) -> Result<(), String> {
         let q = format!("s{j}");
         let want: Vec<(String, Val)> = vec![
             (format!("{q}.raw_type"), Val::U(ent.raw_type as u64)),
-            (format!("{q}.type"), Val::Txt(elf_type_name(ent.raw_type).into())),
+            (format!("{q}.type"), Val::U(mb2_model::expect_mbi::elf_type_class(ent.raw_type) as u64)),
             (format!("{q}.flags"), Val::U(ent.flags & 7)),
             (format!("{q}.addr"), Val::U(ent.addr)),
             (format!("{q}.size"), Val::U(ent.size)),
